@@ -9,6 +9,7 @@ import (
 	"path/filepath"
 	"regexp"
 	"strings"
+	"time"
 
 	"verif/mc/core"
 )
@@ -80,12 +81,32 @@ func c19Key(raw json.RawMessage, key string) string {
 
 var raceFuncRe = regexp.MustCompile(`(?m)^\s+(github\.com/free5gc/nas[^\s(]*)\(`)
 
+// keepAlive ticks the watchdog while a child process (scheduler, race pass) runs; the children have their own limits.
+func keepAlive(c *core.Ctx) (stop func()) {
+	done := make(chan struct{})
+	go func() {
+		t := time.NewTicker(time.Second)
+		defer t.Stop()
+		for {
+			select {
+			case <-done:
+				return
+			case <-t.C:
+				c.Tick()
+			}
+		}
+	}()
+	return func() { close(done) }
+}
+
 func c19RaceRun(c *core.Ctx, tier string) (calls int64) {
 	cmd := exec.Command(binPath("vrace"), "--tier", tier)
 	cmd.Env = append(os.Environ(), "GORACE=exitcode=66 halt_on_error=0", "GOMAXPROCS=16")
 	var so, se bytes.Buffer
 	cmd.Stdout, cmd.Stderr = &so, &se
+	stop := keepAlive(c)
 	err := cmd.Run()
+	stop()
 	var r struct {
 		Calls      int64 `json:"calls"`
 		Mismatches int   `json:"mismatches"`
@@ -131,7 +152,10 @@ func c19Run(c *core.Ctx) {
 	cmd := exec.Command(binPath("vsched"), "--tier", c.Tier)
 	var so, se bytes.Buffer
 	cmd.Stdout, cmd.Stderr = &so, &se
-	if err := cmd.Run(); err != nil {
+	stopKA := keepAlive(c)
+	err0 := cmd.Run()
+	stopKA()
+	if err := err0; err != nil {
 		c.FailCase("schedule|explorer-crash", "vsched failed: "+err.Error()+" "+tail(se.String(), 800), "none", nil)
 		return
 	}
